@@ -6,6 +6,7 @@ CONSTANTS
   DeepLock = FALSE
   BadSig = 0
   UnlockOnFail = TRUE
+  HotReload = FALSE
   MixinsUpdate = FALSE
 VIEW view
 INVARIANT UsedConsistent
